@@ -315,6 +315,8 @@ class TensorProtoTensor(_core.TensorBase):  # pylint: disable=too-many-ancestors
 
     def __init__(self, proto: onnx.TensorProto) -> None:
         super().__init__(metadata_props=deserialize_metadata_props(proto.metadata_props))
+        # Reject an unknown element type now rather than when the dtype is first read
+        _enums.DataType(proto.data_type)
         self._proto = proto
 
     @property
